@@ -65,15 +65,16 @@ func (c07Auth) GetClientConfig(conn ControlConnectionInterface) (string, error) 
 type c07Conn struct {
 	slot    int
 	connID  string
-	srv     *vk.BufConn // server end: what the server reads/writes/closes
-	peer    *vk.BufConn // remote end
-	cleaned atomic.Bool // CloseConnection(connID) has returned (adapter cleanup / disconnect / API close)
-	aged    atomic.Bool // LastActiveAt was pushed into the past and no heartbeat was delivered since
-	hbAfter atomic.Bool // a heartbeat was delivered after ageing
-	tunnel  atomic.Bool // converted by Unregister (tunnel conversion)
-	everReg atomic.Bool // the harness saw it registered as a control connection at some point
-	regOnce atomic.Bool // regauth registered it already
-	stream  interface{} // the stream AcceptConnection returned (stream.PackageStreamer)
+	srv     *vk.BufConn  // server end: what the server reads/writes/closes
+	peer    *vk.BufConn  // remote end
+	cleaned atomic.Bool  // CloseConnection(connID) has returned (adapter cleanup / disconnect / API close)
+	aged    atomic.Bool  // LastActiveAt was pushed into the past and no heartbeat was delivered since
+	hbAfter atomic.Bool  // a heartbeat was delivered after ageing
+	tunnel  atomic.Bool  // converted by Unregister (tunnel conversion)
+	everReg atomic.Bool  // the harness saw it registered as a control connection at some point
+	regOnce atomic.Bool  // regauth registered it already
+	ctlAs   atomic.Int64 // identity of its latest successful authentication if that was a control-type handshake, else 0
+	stream  interface{}  // the stream AcceptConnection returned (stream.PackageStreamer)
 }
 
 func (c *c07Conn) dead() (bool, string) {
@@ -123,6 +124,7 @@ type c07World struct {
 	base     ConnectionStats
 	conc     bool // concurrent phase: no per-op checks, no field reads
 	regOnly  bool // -race mix: registry/session API calls only (no packet handlers)
+	direct   bool // UpdateControlConnectionAuth was called directly (bypasses the eviction done by handleHandshake)
 }
 
 var (
@@ -349,10 +351,14 @@ func (w *c07World) apply(op c07Op) bool {
 			}
 		}
 		w.log(op.String())
-		_ = w.handshake(c, x, "ok", "control")
+		if w.handshake(c, x, "ok", "control") == nil {
+			c.ctlAs.Store(x)
+		}
 	case "tlogin":
 		w.log(op.String())
-		_ = w.handshake(c, x, "ok", "tunnel")
+		if w.handshake(c, x, "ok", "tunnel") == nil {
+			c.ctlAs.Store(0)
+		}
 	case "fail":
 		w.log(op.String())
 		_ = w.handshake(c, w.clients[0], "bad", "control")
@@ -362,6 +368,10 @@ func (w *c07World) apply(op c07Op) bool {
 			return false
 		}
 		w.log(op.String())
+		if !w.conc {
+			w.direct = true
+		}
+		c.ctlAs.Store(0)
 		_ = sm.UpdateControlConnectionAuth(c.connID, x, "")
 	case "age":
 		if reg == nil || c.aged.Load() {
@@ -387,9 +397,11 @@ func (w *c07World) apply(op c07Op) bool {
 		}
 		w.log(op.String())
 		// tunnel conversion: what handleTunnelOpen does with a connection that turns out to carry a tunnel
-		c.tunnel.Store(true)
+		// (a connection is registered as a tunnel at most once: after TunnelOpen the real read loop
+		// leaves packet mode, so a second registration under the same connection id cannot happen)
+		first := !c.tunnel.Swap(true)
 		sm.clientRegistry.Unregister(c.connID)
-		if _, ok := sm.GetConnection(c.connID); ok {
+		if _, ok := sm.GetConnection(c.connID); ok && first {
 			tc := NewTunnelConnection(c.connID, c.stream.(stream.PackageStreamer), c.srv.RemoteAddr(), "tcp")
 			sm.RegisterTunnelConnection(tc)
 			_ = sm.UpdateTunnelConnectionAuth(c.connID, "tun-"+c.connID, "map-1")
@@ -557,6 +569,28 @@ func (w *c07World) check(op c07Op) {
 			w.viol("C07:left-registry-transport-open", op, map[string]any{"conn": id})
 		} else {
 			w.run.Count("removed_with_transport_closed", 1)
+		}
+	}
+	// at most one control connection per client is current: in a quiescent state reached through
+	// handshakes only, two live registered connections whose latest authentication was a
+	// control-type handshake never carry the same client id (judged in sequential runs only;
+	// simultaneous logins are counted at barriers, not judged)
+	if !w.direct && !strings.HasPrefix(op.Kind, "barrier") {
+		per := map[int64][]string{}
+		for _, c := range all {
+			k := inList[c.connID]
+			if d, _ := c.dead(); d || k == nil {
+				continue
+			}
+			if x := c.ctlAs.Load(); x != 0 && k.Authenticated && k.ClientID == x {
+				per[x] = append(per[x], c.connID)
+			}
+		}
+		for x, ids := range per {
+			if len(ids) > 1 {
+				sort.Strings(ids)
+				w.viol("C07:two-live-control-conns-for-client", op, map[string]any{"client": x, "conns": ids})
+			}
 		}
 	}
 	for _, c := range all {
